@@ -49,6 +49,21 @@ def run(ctx):
     T_tx, F_tx, _ = call_bool_edges(h, "pgcat::server::Server::in_transaction", switches_cache=hsw)
     T_cp, F_cp, _ = call_bool_edges(h, "pgcat::server::Server::in_copy_mode", switches_cache=hsw)
     T_tm, F_tm = field_bool_edges(h, "transaction_mode", hsw)
+    # a Client predicate that can only answer true when transaction_mode is true is as good as the field test (round 6: `can_release_server`)
+    for n_, b_ in F.bodies.items():
+        if not n_.startswith("pgcat::client::Client::") or "::{" in n_ or b_.locals[0]["ty"] != "bool":
+            continue
+        bsw_ = switches(b_)
+        Tm_, Fm_ = field_bool_edges(b_, "transaction_mode", bsw_)
+        if not Fm_:
+            continue
+        after_false = b_.reach([d_ for _, d_ in Fm_])
+        rets0 = [(blk, st) for blk, i, st in b_.assigns() if st["lhs"]["l"] == 0 and not st["lhs"]["p"]]
+        only_false = all(st["rv"]["k"] == "use" and const_int(st["rv"]["op"]) == 0 for blk, st in rets0 if blk in after_false)
+        no_bypass = b_.uncrossed_path([0], [blk for blk, st in rets0 if not (st["rv"]["k"] == "use" and const_int(st["rv"]["op"]) == 0)], edges=set(Tm_)) is None
+        if only_false and no_bypass and h.calls(n_):
+            Th_, _Fh, _ = call_bool_edges(h, n_, switches_cache=hsw)
+            T_tm = set(T_tm) | set(Th_)
     rts = [c for c in h.calls(*ROUND_TRIPS) if c.block in inner_blocks]
     if not F_tx:
         r1.missing("branch on Server::in_transaction() in handle")
@@ -79,6 +94,24 @@ def run(ctx):
         w = esc(T_tm)
         r3.check(w is None, "after:" + key, "after %s the server is released only when transaction_mode is true" % key,
                  "after %s a session-mode client gives its server back between transactions" % key, c.where(), w and h.describe_path(w))
+    # ... and not only after a round trip of the same iteration: whatever the arm, the loop is left towards the release path only where the server said
+    # `not in a transaction` - except by the idle-in-transaction deadline, whose exit goes through the ROLLBACK of checkin_cleanup (round 6: the arm that
+    # drops a stray CopyDone released the server of an open transaction)
+    idle_arms = set()
+    for t_ in h.calls("re:^tokio::time::timeout::timeout$"):
+        if t_.block in inner_blocks and any(o.kind == "call" and re.search(r"fill_buf$|read_message$", o.call.name) for o in origins(h, t_.args[1])):
+            el_, _, _ = discr_edges(h, r"core::result::Result<.*Elapsed>", "Err", origin_pred=lambda o, t_=t_: o.kind == "call" and o.call.block == t_.block, switches_cache=hsw)
+            el2_ = [te for _s, _o, te, _f in bool_value_edges(h, lambda o, t_=t_: o.kind == "call" and o.call.name.endswith("::is_err") and any(oo.kind == "call" and oo.call.block == t_.block for oo in origins(h, o.call.args[0], taint=True)), hsw)]
+            idle_arms |= {d_ for _, d_ in el_} | {te[1] for te in el2_}
+    par_ = h.reach([inner], avoid_edges=F_tx, avoid_blocks=sorted(idle_arms), want_parents=True)
+    w_ = None
+    for (u, v) in sorted(exits):
+        if u in par_ and (u, v) not in F_tx and v not in idle_arms and not any(h.dominates(a_, u) for a_ in idle_arms):
+            w_ = h.path(par_, u) + [v]
+            break
+    r1.check(bool(idle_arms) and w_ is None, "every-exit-crosses-not-in-transaction", "whatever the message, the transaction loop is left towards the release path only over in_transaction()==false (or through the idle-in-transaction deadline)",
+             "an arm of the transaction loop leaves it towards the release path without having seen in_transaction()==false: the server of an open transaction is rolled back and handed to another client in the middle of this client's transaction",
+             "", w_ and h.describe_path(w_))
     r1.check(len(rts) >= 3, "round-trip-sites", "%d server round trips in the transaction loop (Q, Sync, CopyDone/Fail arms)" % len(rts), "expected >= 3 round-trip sites in the transaction loop, found %d" % len(rts))
 
     # ---------------- R4 one statement stream per guard
